@@ -571,3 +571,108 @@ def run_smt(ctx, b1, b2, interval, n_tasks=2, K=1):
         res = mod.train_smt(ts, train_st_contract(w), buf, b1=b1, b2=b2, solved_threshold=sym_real("solved_threshold"), unsolvable_threshold=sym_real("unsolvable_threshold"),
                             scheduling_interval=interval, kappa=0.8, K=K, n_average=2, learning_starts=0, seed=0, logger=None, progress_bar=False)
     return w, ts, buf, res
+
+
+# ------------------------------------------------------------------------------------------------ on-policy collectors
+def run_reinforce_collect(ctx, which, K, start=0):
+    """reinforce.sample_trajectories with the real EpisodeDataset; K = total_steps."""
+    from rl_blox.algorithm import reinforce as mod
+    w = W.World()
+    env = W.RecEnv(w, discrete=False, max_steps=K + 6)
+    env.force_end_at = K + 3
+    policy = StubPolicy("policy", w, env)
+    train_after_episode = bool(sym_bool("train_after_episode"))
+    with overlay(mod, nnx=W.NnxShim(w, env), jax=W.JaxShim(False)):
+        ds = mod.sample_trajectories(env, policy, ("key", 0), None, train_after_episode, K)
+    tr = Trace("reinforce", w, env, None, {"train_after_episode": train_after_episode, "total_steps": K}, ds, None, 0, K)
+    # stored rows
+    rows = [r for ep in ds.episodes for r in ep]
+    ctx.check(len(rows) == env.n_steps, "one-stored-transition-per-executed-step")
+    for (o, a, no, r), st in zip(rows, env.steps):
+        ctx.check(W.tagval(o) == W.tagval(st["obs"]), "stored-observation-is-the-one-the-environment-last-returned(reset-obs-after-episode-end)")
+        ctx.check(W.tagval(a) == W.tagval(st["action"]), "stored-action-is-the-action-passed-to-the-environment")
+        ctx.check(W.tagval(no) == W.tagval(st["next_obs"]), "stored-successor-is-that-step's-observation")
+        ctx.check(r == st["reward"], "stored-reward-is-that-step's-reward")
+    # episode records: an episode record ends exactly at an episode end
+    k = 0
+    for ep in ds.episodes:
+        for j, _ in enumerate(ep):
+            st = env.steps[k]
+            ended = W.b_or(st["terminated"], st["truncated"])
+            ctx.check(ended if j == len(ep) - 1 else W.b_not(ended), "episode-records-split-exactly-at-episode-ends")
+            k += 1
+    check_policy_sees_current_obs(ctx, tr, "policy_sample", lambda p: p["obs"])
+    # documented stopping rule: after the first episode (train_after_episode) or at the first episode end with >= total_steps samples
+    last = env.steps[-1]
+    ctx.check(W.b_or(last["terminated"], last["truncated"]), "collection-stops-at-an-episode-end")
+    if not train_after_episode:
+        n_before_last_ep = env.n_steps - len(ds.episodes[-1])
+        ctx.check(n_before_last_ep < K and env.n_steps >= K, "collects-at-least-total_steps-and-stops-at-the-first-episode-end-after")
+    else:
+        ctx.check(len(ds.episodes) == 1, "train_after_episode-collects-exactly-one-episode")
+    return tr
+
+
+class VecEnvStub:
+    """2-environment vector env: fresh per-env observation tags, symbolic rewards / flags per env."""
+
+    def __init__(self, world, n=2):
+        self.w, self.num_envs, self.n_steps = world, n, 0
+        self.steps = []
+        self.cur = np.asarray([[100.0 + e] for e in range(n)], dtype=np.float32)
+
+    def step(self, action):
+        self.n_steps += 1
+        k = self.n_steps
+        nobs = np.asarray([[1000.0 * (e + 1) + k] for e in range(self.num_envs)], dtype=np.float32)
+        from e2_pysym.npshim import SymArr
+        rew = SymArr(np.asarray([sym_real(f"r{k}_{e}") for e in range(self.num_envs)], dtype=object))
+        term = SymArr(np.asarray([sym_bool(f"term{k}_{e}") for e in range(self.num_envs)], dtype=object))
+        trunc = SymArr(np.asarray([sym_bool(f"trunc{k}_{e}") for e in range(self.num_envs)], dtype=object))
+        self.steps.append({"obs": self.cur, "action": action, "next_obs": nobs, "reward": rew, "terminated": term, "truncated": trunc})
+        self.cur = nobs
+        return nobs, rew, term, trunc, {}
+
+
+def run_a2c_collect(ctx, which, K, start=0):
+    from rl_blox.algorithm import a2c as mod
+    w = W.World()
+    env = VecEnvStub(w)
+    adds = []
+
+    class RB:
+        def __init__(self, buffer_size, keys, dtypes):
+            self.keys = keys
+
+        def add_sample(self, **kw):
+            adds.append(kw)
+
+    class Pol:
+        n = 0
+
+        def sample(self, obs, key):
+            Pol.n += 1
+            a = np.asarray([[3000.0 + Pol.n], [4000.0 + Pol.n]], dtype=np.float32)
+            w.emit("policy_sample", env.n_steps, obs=obs, key=key, action=a)
+            return a
+    with overlay(mod, ReplayBuffer=RB, jax=W.JaxShim(False)):
+        buf, last_obs, gstep, rets = mod.collect_trajectories(env, Pol(), ("key", 0), env.cur, K, None, start)
+    ctx.check(len(adds) == K and env.n_steps == K, "one-rollout-row-per-executed-step")
+    for a, st in zip(adds, env.steps):
+        ctx.check(bool(np.array_equal(np.asarray(a["obs"]), st["obs"])), "stored-observation-is-the-one-the-environment-last-returned(reset-obs-after-episode-end)")
+        ctx.check(bool(np.array_equal(np.asarray(a["actions"]), np.asarray(st["action"]))), "stored-action-is-the-action-passed-to-the-environment")
+        for e in range(env.num_envs):
+            ctx.check(a["rewards"][e] == st["reward"][e], "stored-reward-is-that-step's-reward")
+            ctx.check(a["terminations"][e] == st["terminated"][e], "stored-termination-flag-is-that-step's-flag")
+            ctx.check(a["truncations"][e] == st["truncated"][e], "stored-truncation-flag-is-that-step's-flag")
+    for (_, at, p) in w.of("policy_sample"):
+        ctx.check(bool(np.array_equal(np.asarray(p["obs"]), env.steps[at]["obs"])), "acting-policy-is-conditioned-on-the-current-observation")
+    ctx.check(bool(np.array_equal(np.asarray(last_obs), env.cur)), "returned-last-observation-is-the-environment's-current-observation")
+    ctx.check(gstep == start + K * env.num_envs, "reported-step-count=start+executed(all environments)")
+    return Trace("a2c", w, env, None, {}, None, gstep, start, K)
+
+
+RUNNERS["reinforce"] = run_reinforce_collect
+RUNNERS["a2c"] = run_a2c_collect
+EXTRA_C01.append(("reinforce", "reinforce.sample_trajectories"))
+EXTRA_C01.append(("a2c", "a2c.collect_trajectories"))
